@@ -1725,15 +1725,20 @@ class PopulationProbability(Probability):
     def to_y0(self) -> str:
         """Output this probability instance as y0 internal DSL code."""
         interventions, unintervened_distribution = self._help_level_2_distribution()
+        if self.population == TARGET_DOMAIN:
+            # the name of the target domain is not an identifier, the DSL's constant for it is
+            population = "TARGET_DOMAIN"
+        else:
+            population = self.population.to_y0()
         if not interventions or not unintervened_distribution:
-            return f"PP[{self.population.to_y0()}]({self.distribution.to_y0()})"
+            return f"PP[{population}]({self.distribution.to_y0()})"
 
         # only keep the + if necessary, otherwise show regular
         intervention_str = ",".join(
             f"+{intervention.name}" if intervention.star else intervention.name
             for intervention in _sort_interventions(interventions)
         )
-        return f"PP[{self.population.to_y0()}][{intervention_str}]({unintervened_distribution.to_y0()})"
+        return f"PP[{population}][{intervention_str}]({unintervened_distribution.to_y0()})"
 
     def to_text(self) -> str:
         """Output this probability in the internal string format."""
